@@ -1127,6 +1127,31 @@ def main(out_path):
              'get_algorithm_recommendations: suppression test')
     soft('recommendation decisions (Algorithms.get_recommendations, get_algorithm_recommendations)', ['C13'], ex_recs)
 
+    def ex_first_packet():
+        # audit(): what the first packet leads to - the automatic SSH-1 retry, and which message types are an error
+        au = func_node(t_main, 'audit')
+        neg = [n for n in ast.walk(au) if isinstance(n, ast.If) and ast.unparse(n.test) == 'packet_type < 0']
+        need(len(neg) == 1, 'audit(): `if packet_type < 0:`')
+        mm = [n for n in neg[0].body if isinstance(n, ast.If) and ast.unparse(n.test) == "payload_txt == 'Protocol major versions differ.'"]
+        need(len(mm) == 1 and len(mm[0].body) == 1 and isinstance(mm[0].body[0], ast.If) and not mm[0].orelse and len(mm[0].body[0].body) == 1 and isinstance(mm[0].body[0].body[0], ast.Return)
+             and ast.unparse(mm[0].body[0].body[0].value).startswith('audit(out, aconf, 1'), 'audit(): the SSH-1 retry after a protocol mismatch')
+        cond = ast.BoolOp(op=ast.And(), values=[ast.Name(id='is_mismatch_text', ctx=ast.Load()), mm[0].body[0].test])
+        w(kernel('src_ssh1_retry', [('is_mismatch_text', 'bool'), ('sshv', 'Z'), ('ssh1_allowed', 'bool')], [ast.Return(value=cond)], inputs={'aconf.ssh1': ('ssh1_allowed', 'bool')}))
+        # the else branch: err_pair is set for a message of the wrong type
+        body = neg[0].orelse
+        need(len(body) == 3 and ast.unparse(body[0]) == 'err_pair = None' and isinstance(body[1], ast.If) and isinstance(body[2], ast.If) and ast.unparse(body[2].test) == 'err_pair is not None', 'audit(): the wrong-message-type test')
+
+        class Flag(ast.NodeTransformer):
+            def visit_Assign(self, node):
+                if ast.unparse(node.targets[0]) == 'err_pair':
+                    return ast.Assign(targets=node.targets, value=ast.Constant(value=not (isinstance(node.value, ast.Constant) and node.value.value is None)))
+                return node
+        import copy
+        stmts = [ast.fix_missing_locations(Flag().visit(copy.deepcopy(x))) for x in body[:2]]
+        ins = {'Protocol.SMSG_PUBLIC_KEY': ('proto_SMSG_PUBLIC_KEY', 'Z'), 'Protocol.MSG_KEXINIT': ('proto_MSG_KEXINIT', 'Z')}
+        w(kernel('src_first_packet_wrong_type', [('sshv', 'Z'), ('packet_type', 'Z')], stmts, inputs=ins, result='err_pair'))
+    soft('first-packet classification (audit)', ['C09'], ex_first_packet)
+
     def ex_audit_phases():
         # audit(): the block between the parsed KEXINIT and the report decides which follow-up phases run (each phase = connections to the target).
         # Calls that start a phase are rewritten to `log.append(<phase>)`, every `return` to `return log`, debug output is dropped; the rest is translated as it stands.
